@@ -278,8 +278,78 @@ class C08(Property):
             ops.append(["cds", dup["id"]])
             ops2.append(["cds", dup["id"]])
             genes.append(dup)
-        return {"f": "history", "len": n, "circ": circular, "genes": genes, "protos": protos, "subs": subs,
+        case = {"f": "history", "len": n, "circ": circular, "genes": genes, "protos": protos, "subs": subs,
                 "cands": cands, "ops": ops, "ops2": ops2}
+        if rng.random() < 0.5:
+            case["ops"] = case["ops2"] = self.with_clears(rng, case)
+        return case
+
+    @staticmethod
+    def with_clears(rng: random.Random, case: Dict[str, Any]) -> List[List[Any]]:
+        """one ordering with clear_* calls, re-adding of cleared collections, a second create_regions and
+           observing calls in between (get_cds_features, cds_children incl. sections, get_cds_by_name,
+           get_cds_features_within_regions)"""
+        base = [o for o in case["ops"]]
+        area_ids = {"protos": [p["id"] for p in case["protos"]], "subs": [s["id"] for s in case["subs"]],
+                    "cands": [c["id"] for c in case["cands"]]}
+        all_ids = area_ids["protos"] + area_ids["subs"] + area_ids["cands"]
+        out: List[List[Any]] = []
+        regions_alive = False
+        registered = {"protos": set(), "subs": set(), "cands": set()}
+        kind_of = {i: k for k, ids in area_ids.items() for i in ids}
+        pending = list(base)
+        gene_ids = [g["id"] for g in case["genes"]]
+
+        def observe() -> None:
+            r = rng.random()
+            if r < 0.2:
+                out.append(["peek_cds"])
+            elif r < 0.55 and all_ids:
+                out.append(["peek", rng.choice(all_ids)])
+            elif r < 0.75:
+                out.append(["peek_region", rng.randrange(0, 4)])
+            elif r < 0.9 and gene_ids:
+                added = [o[1] for o in out if o[0] == "cds"]
+                if added and rng.random() < 0.97:
+                    out.append(["name", rng.choice(added)])
+                elif rng.random() < 0.1:
+                    out.append(["name", 99])           # KeyError ends the history
+            else:
+                out.append(["within_regions"])
+        while pending:
+            op = pending.pop(0)
+            if op[0] == "regions":
+                if regions_alive or not (registered["subs"] or registered["cands"]):
+                    continue
+                regions_alive = True
+            elif op[0] == "area":
+                registered[kind_of[op[1]]].add(op[1])
+            out.append(op)
+            for _ in range(rng.choice([0, 0, 1, 1, 2])):
+                observe()
+            if rng.random() < 0.22:
+                what = rng.choice(["regions", "subs", "cands", "protos", "regions"])
+                out.append(["clear", what])
+                if what == "regions":
+                    regions_alive = False
+                else:
+                    cleared = list(registered[what])
+                    registered[what].clear()
+                    if what == "protos":
+                        cleared += list(registered["cands"])
+                        registered["cands"].clear()
+                    if regions_alive and not (registered["subs"] or registered["cands"]):
+                        regions_alive = False
+                    # some of the cleared collections come back later
+                    for i in cleared:
+                        if rng.random() < 0.6:
+                            pending.insert(rng.randrange(0, len(pending) + 1), ["area", i])
+                if rng.random() < 0.6:
+                    pending.insert(rng.randrange(0, len(pending) + 1), ["regions"])
+                observe()
+        for _ in range(rng.choice([1, 2, 3])):
+            observe()
+        return out
 
     @staticmethod
     def core_inside(rng: random.Random, loc: Dict[str, Any], n: int) -> Dict[str, Any]:
@@ -382,49 +452,105 @@ class C08(Property):
         ids_of = {id(obj): i for i, obj in objs.items()}
         regions: List[Dict[str, Any]] = []
         model_ops: List[List[Any]] = []
+        log: List[List[List[int]]] = []
+        generation = [0]
+
+        def gid(cds: Any) -> int:
+            return int(cds.get_name()[1:])
+
+        def new_regions(known: set) -> List[Dict[str, Any]]:
+            """descriptors (with fresh ids) for the Region objects the record holds that were not seen before"""
+            fresh = [r for r in rec.get_regions() if id(r) not in known]
+            out = []
+            keyed = sorted(fresh, key=lambda r: sorted(ids_of[id(k)] for k in list(r.subregions) + list(r.candidate_clusters)))
+            for rank, region in enumerate(keyed):
+                kids = sorted(ids_of[id(k)] for k in list(region.subregions) + list(region.candidate_clusters))
+                rid = 400 + 20 * generation[0] + rank
+                d = {"id": rid, "kind": "region", "loc": common.location_json(region.location),
+                     "kids": [descr[k] for k in kids]}
+                objs[rid] = region
+                descr[rid] = d
+                ids_of[id(region)] = rid
+                regions.append(d)
+                out.append(d)
+            if fresh:
+                generation[0] += 1
+            # the order add_region was called in (the record keeps its own order)
+            return out
+
         for step, op in enumerate(ops):
             try:
-                if op[0] == "cds":
+                kind = op[0]
+                if kind == "cds":
                     cds = self.make_cds(genes[op[1]])
                     model_ops.append(["cds", genes[op[1]]])
                     rec.add_cds_feature(cds)
                     cdses[op[1]] = cds
-                elif op[0] == "area":
+                elif kind == "area":
                     obj = objs[op[1]]
                     model_ops.append(["area", descr[op[1]]])
                     {"proto": rec.add_protocluster, "sub": rec.add_subregion,
                      "cand": rec.add_candidate_cluster}[descr[op[1]]["kind"]](obj)
-                else:
+                elif kind == "regions":
+                    known = {id(r) for r in rec.get_regions()}
                     try:
                         rec.create_regions()
                     except Exception as exc:  # pylint: disable=broad-except
                         return {"skip": f"create_regions: {err_kind(exc)} {str(exc)[:100]}"}
-                    for region in rec.get_regions():
-                        kids = [ids_of[id(k)] for k in list(region.subregions) + list(region.candidate_clusters)]
-                        kids = sorted(kids)
-                        rid = 400 + min(kids)
-                        d = {"id": rid, "kind": "region", "loc": common.location_json(region.location),
-                             "kids": [descr[k] for k in kids]}
-                        objs[rid] = region
-                        descr[rid] = d
-                        regions.append(d)
+                    for d in new_regions(known):
                         model_ops.append(["area", d])
+                elif kind == "clear":
+                    known = {id(r) for r in rec.get_regions()}
+                    try:
+                        {"regions": rec.clear_regions, "subs": rec.clear_subregions,
+                         "cands": rec.clear_candidate_clusters, "protos": rec.clear_protoclusters}[op[1]]()
+                    except Exception as exc:  # pylint: disable=broad-except
+                        return {"skip": f"clear_{op[1]}: {err_kind(exc)} {str(exc)[:100]}"}
+                    if op[1] == "regions":
+                        model_ops.append(["clear_regions"])
+                    else:
+                        model_ops.append(["clear_" + op[1], new_regions(known)])
+                elif kind == "peek_cds":
+                    model_ops.append(["peek_cds"])
+                    log.append([[gid(c) for c in rec.get_cds_features()]])
+                elif kind in ("peek", "peek_region"):
+                    if kind == "peek_region":
+                        live = rec.get_regions()
+                        if not live:
+                            continue
+                        aid = ids_of[id(live[op[1] % len(live)])]
+                    else:
+                        aid = op[1]
+                    model_ops.append(["peek", aid])
+                    ch = objs[aid].cds_children
+                    log.append([[gid(c) for c in ch], [gid(c) for c in ch.pre_origin],
+                                [gid(c) for c in ch.cross_origin], [gid(c) for c in ch.post_origin]])
+                elif kind == "name":
+                    model_ops.append(["name", op[1]])
+                    cds = rec.get_cds_by_name(f"g{op[1]}")
+                    log.append([[gid(cds), int(cds.location.start), int(cds.location.end)]])
+                elif kind == "within_regions":
+                    model_ops.append(["within_regions"])
+                    log.append([sorted(gid(c) for c in rec.get_cds_features_within_regions())])
+                else:
+                    raise ValueError(kind)
             except Exception as exc:  # pylint: disable=broad-except
                 return {"err": err_kind(exc), "at": step, "msg": str(exc)[:200], "model_ops": model_ops,
-                        "regions": regions}
-        name_id = {c.get_name(): i for i, c in cdses.items()}
-        children = [[i, sorted(name_id[c.get_name()] for c in objs[i].cds_children)] for i in sorted(objs)]
+                        "regions": regions, "log": log, "areas": [descr[i] for i in sorted(descr)]}
+        children = [[i, sorted(gid(c) for c in objs[i].cds_children)] for i in sorted(objs)]
+        sections = []
+        for i in sorted(objs):
+            ch = objs[i].cds_children
+            sections.append([i, [sorted(gid(c) for c in sec) for sec in (ch.pre_origin, ch.cross_origin, ch.post_origin)]])
         region_of = []
-        region_ids = {id(objs[r["id"]]): r["id"] for r in regions}
         for op in ops:
             if op[0] == "cds":
                 reg = cdses[op[1]].region
-                region_of.append([op[1], None if reg is None else region_ids.get(id(reg), -1)])
-        defs = [[p["id"], sorted(name_id[c.get_name()] for c in objs[p["id"]].definition_cdses)]
-                for p in case["protos"]]
-        return {"order": [name_id[c.get_name()] for c in rec.get_cds_features()],
-                "children": children, "region": sorted(region_of), "defs": defs,
-                "regions": regions, "model_ops": model_ops,
+                region_of.append([op[1], None if reg is None else ids_of.get(id(reg), -1)])
+        defs = [[p["id"], sorted(gid(c) for c in objs[p["id"]].definition_cdses)] for p in case["protos"]]
+        return {"order": [gid(c) for c in rec.get_cds_features()],
+                "children": children, "sections": sections, "region": sorted(region_of), "defs": defs,
+                "regions": regions, "model_ops": model_ops, "log": log,
                 "areas": [descr[i] for i in sorted(descr)]}
 
     def run_history(self, case: Dict[str, Any]) -> Dict[str, Any]:
@@ -434,7 +560,7 @@ class C08(Property):
             first = self.execute(case, case["ops"])
             if "skip" in first:
                 return first
-            second = self.execute(case, case["ops2"])
+            second = first if case["ops2"] == case["ops"] else self.execute(case, case["ops2"])
         finally:
             logging.disable(logging.NOTSET)
         return {"first": first, "second": second}
@@ -447,13 +573,16 @@ class C08(Property):
         if "skip" in obs or "skip" in obs.get("second", {}):
             return None
         return {"f": "history", "len": case["len"], "ops": obs["first"]["model_ops"],
-                "ops2": obs["second"]["model_ops"], "areas": obs["first"].get("areas", [])}
+                "ops2": obs["second"]["model_ops"], "areas": obs["first"].get("areas", []),
+                "impl_log": obs["first"].get("log", [])}
 
     @staticmethod
     def canon_obs(o: Dict[str, Any], with_order: bool) -> Dict[str, Any]:
-        out = {"children": sorted(o["children"]), "region": sorted(o["region"]), "defs": sorted(o["defs"])}
+        out = {"children": sorted(o["children"]), "region": sorted(o["region"]), "defs": sorted(o["defs"]),
+               "sections": sorted(o["sections"])}
         if with_order:
             out["order"] = o["order"]
+            out["log"] = o["log"]
         return out
 
     def judge(self, case: Dict[str, Any], obs: Dict[str, Any], drv: Optional[Dict[str, Any]]) -> Judgement:
@@ -511,7 +640,7 @@ class C08(Property):
             if not ok:
                 corr = False
                 details.append(f"{name} ordering: model {m} vs implementation "
-                               f"{ {k: v for k, v in o.items() if k not in ('model_ops', 'regions', 'areas')} }")
+                               f"{ {k: v for k, v in o.items() if k not in ('model_ops', 'regions', 'areas')} }"[:900])
         spec_ok = True
         nontrivial = False
         if scope and "err" not in first and "err" not in second:
@@ -519,12 +648,25 @@ class C08(Property):
             got = self.canon_obs(first, False)
             want_region = sorted([g, (r[0] if len(r) == 1 else (None if not r else ["ambiguous"] + r))]
                                  for g, r in spec["region"])
-            want = {"children": sorted(spec["children"]), "region": want_region, "defs": sorted(spec["defs"])}
-            if got != want:
+            if got["region"] != want_region:
                 spec_ok = False
-                for k in ("children", "region", "defs"):
-                    if got[k] != want[k]:
-                        details.append(f"spec fails on {k}: expected {want[k]} got {got[k]}")
+                details.append(f"spec fails on region: expected {want_region} got {got['region']}")
+            for k in ("children", "defs", "sections"):
+                have = dict((i, v) for i, v in got[k])
+                for i, v in spec[k]:
+                    if v is not None and have.get(i) != v:      # null: the spec does not determine it (not alive)
+                        spec_ok = False
+                        details.append(f"spec fails on {k} of {i}: expected {v} got {have.get(i)}")
+            bad = [i for i, ok in enumerate(drv.get("log_ok", [])) if not ok]
+            if bad or len(drv.get("log_ok", [])) != len(first["log"]):
+                spec_ok = False
+                peeks = [o for o in first["model_ops"] if o[0] in ("peek_cds", "peek", "name", "within_regions")]
+                details.append(f"observation {bad[:1]} fails its spec: call {peeks[bad[0]] if bad else '?'} returned "
+                               f"{first['log'][bad[0]] if bad else first['log']}")
+            if first["log"]:
+                tags.append("with-observations")
+            if any(o[0] == "clear" for o in case["ops"]):
+                tags.append("with-clear")
             if self.canon_obs(second, False) != got:
                 spec_ok = False
                 details.append(f"build order changes the result: {got} vs {self.canon_obs(second, False)}")
